@@ -3242,7 +3242,8 @@ impl Scenario for Faults {
             }
             if matches!(name, "tdh_bc_vs_rdh" | "tdh_trigger_vs_rdh") {
                 cfg.triggers = (1, 1);
-                cfg.p_internal = 1000;
+                // (in 1 of 3 no internal triggers at all: the candidates are then the physics triggers)
+                cfg.p_internal = if rng.chance(1, 3) { 0 } else { 1000 };
                 cfg.p_split = 0;
             }
             if name == "rdh_data_format" {
